@@ -111,7 +111,7 @@ func genC11(seed uint64, tier string) *world.Scenario {
 	ftypes := []string{"minimum", "maximum", "average", "delta", "sum", "difference"}
 	// a planted cycle of seeded length among function curves
 	cycleLen := 0
-	if defect(0.15) {
+	if defect(0.3) {
 		cycleLen = r.Range(1, nc)
 	}
 	for i := 0; i < nc; i++ {
@@ -314,6 +314,22 @@ func genC11(seed uint64, tier string) *world.Scenario {
 				b.WriteString("  - {}\n")
 			}
 		}
+	}
+	if cycleLen > 0 && r.Bool(0.6) {
+		// somebody else also uses a curve of the cycle
+		members := []string{ids[r.Intn(cycleLen)]}
+		if r.Bool(0.5) {
+			members = append(members, ids[r.Intn(nc)])
+		}
+		e := docEntry{id: "curx", idLine: "id: curx"}
+		e.backends = []string{"    function:\n      type: " + kernel.Pick(r, ftypes...) + "\n      curves:\n        - " + strings.Join(members, "\n        - ")}
+		curvs = append(curvs, e)
+	}
+	// the order of entries in the document is independent of who references whom:
+	// list the curves in a seeded order (forward references are legal)
+	for i := len(curvs) - 1; i > 0; i-- {
+		j := r.Intn(i + 1)
+		curvs[i], curvs[j] = curvs[j], curvs[i]
 	}
 	render("fans", fans)
 	render("sensors", sens)
